@@ -7,7 +7,12 @@ Import ListNotations.
 Require Import CV.Orient CV.FreeSpace CV.Circuit CV.OrientProofs CV.Legalizer CV.LegalizerProofs CV.LegalizerAbacusProofs CV.LegalizerSoundProofs.
 Local Open Scope Z_scope.
 
-(* [F, finite] the code's table is the documented one: SAME = the row's orientation,
+(* [F, finite; for NW and SE this compares the code with a transcription of the code: `prescribed`
+   (Circuit.v) reproduces cellOrientationInRow including its TODO choice, while the documentation
+   (coloquinte.hpp) speaks of an alternating series starting with N or W and, for an even number of
+   rows, of every other row only -- clauses that are specified nowhere here.  The specification is
+   therefore "the code's table, read on the bottom row only"]
+   the code's table is the documented one: SAME = the row's orientation,
    OPPOSITE = N<->FS, S<->FN, E<->FW, W<->FE, NW only on N/FN/W/FW rows, SE only on
    S/FS/E/FE rows, ANY = keep (UNKNOWN); forbidden rows give INVALID *)
 Theorem c04_table_matches_doc : forall p r,
@@ -297,8 +302,15 @@ Print Assumptions c04_raw_place_unguarded_refuted.
    Properties_C02.v, last part): DetailedExport.write_back = DetailedPlacement::exportPlacement *)
 Require Import CV.DetailedInit CV.DetailedInitProofs CV.DetailedExport CV.DetailedExportProofs.
 (* [F on the stated domain, rows of known orientation] C04 for the exposed circuit: with the
-   orientations legalization leaves (orient_ok before c) and every history whose raw place operations
-   target a row allowed for the cell (dhist_allowed; swap / insert need nothing), every polarised
+   orientations legalization leaves (orient_ok before c: a HYPOTHESIS, supplied by
+   c04_legalize_circuit_orient_ok only under row_orient_by_y or for row-high designs; for multi-row
+   polarised cells, which detailed placement does not move, the conclusion is this hypothesis copied
+   over -- check() accepts a cell already INVALID on a forbidden row) and every history whose raw place
+   operations target a row allowed for the cell (dhist_allowed: a hypothesis on the history, the C++ place()
+   has no polarity guard; swap / insert need nothing).  Histories with a reorder pass are not covered
+   here (internal state only: c02_closed_reordering_keeps_orientation).  No non-vacuity Example is
+   stated for this theorem, for c04_legalize_circuit_rowhigh_orient_ok or for c04_legalize_real_*.
+   Conclusion: every polarised
    movable cell of the exposed circuit has the documented orientation of the row under its bottom-left
    corner, never INVALID, and every cell without polarity has the orientation it had in `before` *)
 Theorem c04_write_back_orient_ok : forall before c rh s ops,
